@@ -52,7 +52,7 @@ fn plan_for(property: &str, tier: &str, seed: u64, workers: usize) -> Result<Pla
     match property {
         "C16" => Ok(Plan {
             level: "fault_enumeration",
-            batches: vec![native("enumerate", runs(150_000, 2_500_000))],
+            batches: vec![native("enumerate", runs(150_000, 8_000_000))],
             rule: "values (header values, builder configurations, reader streams, LimitedReader op sequences) are drawn from the seed; for each value EVERY fault position is enumerated: writers - hard error and Ok(0) at every byte position 0..=|E| (encodings above 4096 bytes: first 2048 positions, all part boundaries +-1, 64 seeded positions); readers - hard error and end-of-stream at every call index of the operation under whole, 1-byte and seeded chunking; output slices - every length 0..=|E|+1. distinct_nontrivial counts distinct (operation kind, value digest, fault kind, position) tuples whose fault actually fired inside the operation (or: slice shorter than the encoding; LimitedReader sequence with at least one refused read)",
             assumptions: vec![
                 "the fault-free run of the code under test defines the complete encoding / un-faulted result (C16 demands consistency with it, not its correctness - that is C08/C10)",
@@ -66,7 +66,7 @@ fn plan_for(property: &str, tier: &str, seed: u64, workers: usize) -> Result<Pla
         }),
         "C06" => Ok(Plan {
             level: "exploration",
-            batches: vec![native("compare", runs(1_500_000, 30_000_000))],
+            batches: vec![native("compare", runs(1_500_000, 150_000_000))],
             rule: "per run one reader kind (26 reader entry points incl. read_limited / read_without_version / skip_* variants), one generated header stream plus 10 damaged copies (byte flips biased to the first 20 bytes, truncation at a seeded point), each decoded through the reader under whole / 1-byte / seeded short+EINTR transfers and compared with the slice decoder on the slice that holds the announced packet. distinct_nontrivial counts distinct (kind, stream digest, limit, ip number, transfer pattern) tuples where the medium was damaged or the header has a length-dependent second part (stream > 20 bytes)",
             assumptions: vec![
                 "only the io::Read == from_slice clause of C06 is decided; the slice-vs-slice entry point equivalences are pure input relations (not applicable to this technique)",
@@ -79,8 +79,8 @@ fn plan_for(property: &str, tier: &str, seed: u64, workers: usize) -> Result<Pla
             exhaustive_note: "sampled",
         }),
         "C01" => {
-            let mut batches = vec![native("native", runs(1_000_000, 20_000_000))];
-            let m = miri_runs.unwrap_or(if thorough { 6_240 } else { 208 });
+            let mut batches = vec![native("native", runs(1_000_000, 100_000_000))];
+            let m = miri_runs.unwrap_or(if thorough { 5_200 } else { 208 });
             if m > 0 {
                 batches.push(miri("inspect", m, 16));
             }
